@@ -26,7 +26,9 @@ use super::c01;
 use crate::engine::*;
 use crate::gen::ct::{self};
 use crate::gen::pset::{self as gp, PsetOpts};
+use crate::gen::ext_g7 as xg;
 use crate::gen::{self, mutate, pool, secp, TxOpts};
+use crate::refimpl::psetraw;
 
 pub const KF_BLIND_NO_MARKED: &str = "transaction-blind-panics-without-marked-output";
 pub const KF_NEW_BECH32_EMPTY: &str = "segwithrpstring-new-bech32-panics-on-empty-data";
@@ -135,6 +137,50 @@ pub fn pset_accessors(p: &Pset, n: usize) -> R {
         let _ = p.surjection_inputs(&empty).is_ok();
         let _ = format!("{:?}", p).len();
     })
+}
+
+/// only the entry points of a PSET that report failure through Result / Option
+pub fn pset_fallible(p: &Pset, n: usize) -> R {
+    g("PSET fallible entry points", n, || {
+        let _ = (p.extract_tx().is_ok(), p.unique_id().is_ok(), p.locktime().is_ok(), p.sanity_check().is_ok());
+        for i in p.inputs() {
+            let _ = i.get_abf().map(|r| r.is_ok());
+        }
+        for o in p.outputs() {
+            let _ = o.get_abf().map(|r| r.is_ok());
+        }
+        let _ = p.get_asset_metadata(AssetId::LIQUID_BTC).map(|r| r.is_ok());
+        let _ = p.get_token_metadata(AssetId::LIQUID_BTC).map(|r| r.is_ok());
+        let empty: HashMap<usize, TxOutSecrets> = HashMap::new();
+        let _ = p.surjection_inputs(&empty).is_ok();
+    })
+}
+
+/// Is this in-memory PSET a value the PSET decoder can produce? (the rules of `Decodable for Output` and of
+/// `sanity_check`, read off the struct fields by the harness)
+pub fn pset_decodable(p: &Pset) -> bool {
+    // (the declared counts are private and follow add_* / remove_*: they cannot disagree with the maps)
+    p.outputs().iter().all(|o| {
+            let marked = o.blinding_key.is_some();
+            let any = o.amount_comm.is_some() || o.asset_comm.is_some() || o.value_rangeproof.is_some() || o.asset_surjection_proof.is_some() || o.ecdh_pubkey.is_some();
+            let all = o.amount_comm.is_some() && o.asset_comm.is_some() && o.value_rangeproof.is_some() && o.asset_surjection_proof.is_some() && o.ecdh_pubkey.is_some();
+            (o.amount.is_some() || o.amount_comm.is_some())
+                && (o.asset.is_some() || o.asset_comm.is_some())
+                && (!marked || o.blinder_index.is_some())
+                && (!marked || !any || all)
+        })
+}
+
+/// The statement covers the fallible functions on arbitrary in-memory values, and the *accessors normally applied
+/// to freshly decoded values*: the infallible sweep (`to_txout`, encoder, Display, Debug ...) is therefore applied
+/// only to values a decoder can produce; edited values outside that set get the fallible entry points only.
+fn pset_sweep(p: &Pset, completed: bool, ctx: &mut Ctx) -> R {
+    if completed && pset_decodable(p) {
+        pset_accessors(p, 0)
+    } else {
+        ctx.class("pset-state:not-decodable:fallible-entry-points-only");
+        pset_fallible(p, 0)
+    }
 }
 
 // ---- (1) consensus decoders on arbitrary bytes ----------------------------------------------
@@ -853,6 +899,8 @@ fn op_pset(t: &mut Tape, ctx: &mut Ctx) -> R {
                         o.blinder_index = Some(t.edgy_u32());
                     }
                     if t.chance(40) {
+                        // a state the PSET decoder refuses (no amount at all): from here on only the fallible
+                        // entry points are exercised on this value (see `pset_sweep`)
                         o.amount = None;
                         o.amount_comm = None;
                     }
@@ -864,7 +912,7 @@ fn op_pset(t: &mut Tape, ctx: &mut Ctx) -> R {
         }
     }
     ctx.eval();
-    pset_accessors(&p, 0)?;
+    pset_sweep(&p, true, ctx)?;
     // blinding entry points with arbitrary secret maps
     let mut secrets: HashMap<usize, TxOutSecrets> = HashMap::new();
     for _ in 0..t.below(4) {
@@ -876,8 +924,9 @@ fn op_pset(t: &mut Tape, ctx: &mut Ctx) -> R {
     let mut q = p.clone();
     g("blind_non_last", 0, || q.blind_non_last(&mut ChaCha20Rng::from_seed(seed), secp(), &secrets).is_ok())?;
     let mut q = p.clone();
-    g("blind_last", 0, || q.blind_last(&mut ChaCha20Rng::from_seed(seed), secp(), &secrets).is_ok())?;
-    pset_accessors(&q, 0)?;
+    let blinded = g("blind_last", 0, || q.blind_last(&mut ChaCha20Rng::from_seed(seed), secp(), &secrets).is_ok())?;
+    // a blinding call that stops half way may leave an output partially blinded (refused by the decoder)
+    pset_sweep(&q, blinded, ctx)?;
     // merge with an arbitrary other PSET and with a sibling
     let other = gp::gen_pset(t, &PsetOpts::default());
     let mut a = p.clone();
@@ -1080,6 +1129,729 @@ fn corpus(idx: u64, _seed: u64, ctx: &mut Ctx) -> R {
     Ok(())
 }
 
+// =============================================================================================
+// Sub-checks added after review g7: structured hostile inputs that get past the first gate
+// =============================================================================================
+
+/// Largest single allocation the documented caps allow a consensus decoder for an input of `len` bytes:
+/// one vector of at most MAX_VEC_SIZE = 4,000,000 bytes (`encode.rs`), for a PSET 10,000 pre-allocated maps
+/// (`pset/mod.rs`), plus what is proportional to the input (growth by doubling, Debug / JSON text of the
+/// decoded value in the accessor sweep).
+fn legal_single_alloc(ty: usize, len: usize) -> usize {
+    let pset_cap = if ty == 4 { 10_000 * std::mem::size_of::<pset::Input>().max(std::mem::size_of::<pset::Output>()) } else { 0 };
+    pset_cap.max(4_000_000) + (1 << 20) + 64 * len
+}
+
+/// `decode_as` under one outer guard, with the allocation bound the caps imply instead of the generic 64 MiB
+fn decode_tight(ty: usize, b: &[u8], what: &str) -> Result<bool, Failure> {
+    let r = guard::guard("decoder + accessors", b.len(), || decode_as(ty, b))??;
+    let (max_req, _) = guard::last_alloc_stats();
+    let limit = legal_single_alloc(ty, b.len());
+    if max_req > limit {
+        return Err(Failure::new(format!(
+            "decoder #{} ({}): a single allocation request of {} bytes for an input of {} bytes; the documented caps (4,000,000 bytes per \
+             vector, 10,000 PSET maps) plus 64 bytes per input byte allow {} - the length / count check in front of the allocation is missing \
+             or too loose. input = {}",
+            ty,
+            what,
+            max_req,
+            b.len(),
+            limit,
+            hex(&b[..b.len().min(200)])
+        )));
+    }
+    Ok(r)
+}
+
+// ---- (5) PSET encodings edited at the level of key-value pairs (framing intact) ---------------
+
+fn pset_framed(t: &mut Tape, ctx: &mut Ctx) -> R {
+    // the bytes that decide the edit are read first, so that a tape used up by the PSET does not bias the edit
+    let choices = t.bytes(64);
+    let p = gp::gen_pset(t, &PsetOpts { max_in: 2, max_out: 2, extractable: false });
+    let t = &mut Tape::new(&choices);
+    let b = g("serialize(pset)", 0, || serialize(&p))?;
+    let Some(mut maps) = psetraw::split(&b) else {
+        return Err(Failure::panic("harness: the raw splitter cannot split a library encoding".into(), "src/props/c10.rs".into()));
+    };
+    ctx.eval();
+    if t.below(8) < 3 {
+        // a well-framed declared count above the number of maps that follow
+        let output = t.bool();
+        let present = if output { p.outputs().len() } else { p.inputs().len() } as u64;
+        let k = t.below(xg::DECLARED_COUNTS.len() + 2);
+        let value = if k < 2 { present + 1 + k as u64 } else { xg::DECLARED_COUNTS[k - 2] };
+        if !xg::set_declared_count(&mut maps, output, value) {
+            return Err(Failure::panic("harness: no count pair in the global map".into(), "src/props/c10.rs".into()));
+        }
+        if t.bool() {
+            // the other count as well
+            let v2 = xg::DECLARED_COUNTS[t.below(xg::DECLARED_COUNTS.len())];
+            xg::set_declared_count(&mut maps, !output, v2);
+        }
+        match t.below(4) {
+            0 => maps.truncate(1), // nothing follows the global map
+            1 => {
+                let keep = 1 + t.below(maps.len());
+                maps.truncate(keep);
+            }
+            _ => {}
+        }
+        let bytes = psetraw::join(&maps);
+        let ok = decode_tight(4, &bytes, "PartiallySignedTransaction, declared count rewritten")?;
+        ctx.class(&format!(
+            "pset:declared-{}-count:{}:{}",
+            if output { "output" } else { "input" },
+            if value > 10_000 { ">10000" } else if value > present { ">actual" } else { "<=actual" },
+            if ok { "ok" } else { "err" }
+        ));
+        if value > present {
+            ctx.class("pset:declared-count>actual");
+        }
+        ctx.nontrivial(&bytes);
+        return Ok(());
+    }
+    let mut ops: Vec<&'static str> = Vec::new();
+    for _ in 0..1 + t.below(2) {
+        ops.push(xg::pset_pair_mutation(t, &mut maps));
+    }
+    let bytes = psetraw::join(&maps);
+    let ok = decode_tight(4, &bytes, "PartiallySignedTransaction, pair-level edit")?;
+    // the single maps through their own decoders as well
+    if let Some(m) = maps.first() {
+        let gb = &psetraw::join(std::slice::from_ref(m))[5..];
+        let _ = decode_as(22, gb)?;
+    }
+    if maps.len() > 1 {
+        let k = 1 + t.below(maps.len() - 1);
+        let mb = &psetraw::join(std::slice::from_ref(&maps[k]))[5..];
+        let _ = decode_as(20, mb)?;
+        let _ = decode_as(21, mb)?;
+    }
+    ctx.class(&format!("pset-pair-op:{}:{}", ops[0], if ok { "ok" } else { "err" }));
+    ctx.nontrivial(&bytes);
+    if ctx.wants_sample("pset-pair-op") && bytes.len() < 300 {
+        ctx.sample("pset-pair-op", || json!({"ops": ops, "decoded": ok, "pset_hex": hex(&bytes)}));
+    }
+    Ok(())
+}
+
+// ---- (6) pegout scripts, pegin witnesses, instruction-level scripts ------------------------------
+
+fn structured_scripts(t: &mut Tape, ctx: &mut Ctx) -> R {
+    ctx.eval();
+    match t.below(3) {
+        0 => {
+            let (script, label) = xg::gen_pegout_script(t);
+            let mut sb = script.into_bytes();
+            if t.chance(30) {
+                mutate::mutate_once(t, &mut sb, &Default::default());
+            }
+            let o = TxOut {
+                asset: gen::gen_asset(t),
+                value: if t.chance(40) { gen::gen_value(t) } else { Value::Explicit(t.edgy_u64()) },
+                nonce: gen::gen_nonce(t),
+                script_pubkey: Script::from(sb.clone()),
+                witness: TxOutWitness::empty(),
+            };
+            let n = sb.len();
+            let (null_data, pegout) = g("TxOut::{is_null_data, is_pegout, pegout_data, minimum_value}", n, || {
+                let pd = o.pegout_data();
+                let seen = pd.as_ref().map(|p| (p.extra_data.len(), p.extra_data.iter().map(|e| e.len()).sum::<usize>(), p.script_pubkey.len(), p.genesis_hash, p.value, p.asset, format!("{:?}", p).len()));
+                let _ = (o.is_fee(), o.minimum_value(), o.is_partially_blinded());
+                (o.is_null_data(), o.is_pegout() && seen.is_some())
+            })?;
+            script_accessors(&o.script_pubkey)?;
+            // and through the transaction decoder
+            let tx = Transaction { version: 2, lock_time: LockTime::ZERO, input: vec![], output: vec![o] };
+            let b = g("serialize(tx)", n, || serialize(&tx))?;
+            let _ = decode_as(0, &b)?;
+            ctx.class(label);
+            ctx.class(if pegout { "pegout_data:Some" } else if null_data { "pegout_data:None:null-data" } else { "pegout_data:None:not-null-data" });
+            ctx.nontrivial(&sb);
+        }
+        1 => {
+            let (items, label) = xg::gen_pegin_witness(t);
+            let n: usize = items.iter().map(|i| i.len()).sum();
+            let prev = elements::bitcoin::OutPoint { txid: <elements::bitcoin::Txid as elements::bitcoin::hashes::Hash>::from_byte_array(t.arr32()), vout: t.edgy_u32() };
+            let r = g("PeginData::from_pegin_witness", n, || {
+                PeginData::from_pegin_witness(&items, prev).map(|p| (p.parse_tx().is_ok(), p.parse_merkle_proof().is_ok(), p.to_pegin_witness().len(), p.referenced_block, p.value, format!("{:?}", p).len()))
+            })?;
+            ctx.class(label);
+            match &r {
+                Ok((tx_ok, proof_ok, ..)) => {
+                    ctx.class("from_pegin_witness:Ok");
+                    if *tx_ok {
+                        ctx.class("pegin:parse_tx:Ok");
+                    }
+                    if *proof_ok {
+                        ctx.class("pegin:parse_merkle_proof:Ok");
+                    }
+                }
+                Err(e) => ctx.class(&format!("from_pegin_witness:Err:{}", e)),
+            }
+            // the same witness on an input marked as pegin, through the accessors and the decoder
+            let i = TxIn {
+                previous_output: OutPoint { txid: gen::gen_txid(t), vout: gen::gen_vout(t) },
+                is_pegin: !t.chance(20),
+                script_sig: Script::new(),
+                sequence: Sequence::MAX,
+                asset_issuance: AssetIssuance::null(),
+                witness: TxInWitness { amount_rangeproof: None, inflation_keys_rangeproof: None, script_witness: vec![], pegin_witness: items.clone() },
+            };
+            let tx = Transaction { version: 2, lock_time: LockTime::ZERO, input: vec![i], output: vec![] };
+            tx_accessors(&tx, n)?;
+            let b = g("serialize(tx)", n, || serialize(&tx))?;
+            let _ = decode_as(0, &b)?;
+            ctx.nontrivial(&items);
+        }
+        _ => {
+            let (bytes, label) = xg::gen_instr_script(t);
+            script_accessors(&Script::from(bytes.clone()))?;
+            // minimal-push iteration and assembly on the same bytes behind a script length prefix
+            let mut enc = Vec::new();
+            crate::refimpl::enc::compact_size(&mut enc, bytes.len() as u64);
+            enc.extend_from_slice(&bytes);
+            let _ = decode_as(15, &enc)?;
+            ctx.class(label);
+            ctx.nontrivial(&bytes);
+        }
+    }
+    Ok(())
+}
+
+// ---- (7) length prefixes just above the caps, at the recorded positions ---------------------------
+
+const ALLOC_BOMBS: [(&[u8], &str); 10] = [
+    (&[0xfe, 0x01, 0x09, 0x3d, 0x00], "4000001"),
+    (&[0xfe, 0x00, 0x12, 0x7a, 0x00], "8000000"),
+    (&[0xfe, 0x00, 0x00, 0x00, 0x02], "32Mi"),
+    (&[0xfd, 0xff, 0xff], "65535"),
+    (&[0xfe, 0xa0, 0x86, 0x01, 0x00], "100000"),
+    (&[0xfe, 0x00, 0x09, 0x3d, 0x00], "4000000"),
+    (&[0xfe, 0x40, 0x42, 0x0f, 0x00], "1000000"),
+    (&[0xfe, 0x00, 0x00, 0x00, 0x01], "16Mi"),
+    (&[0xff, 0x40, 0x4b, 0x4c, 0x00, 0x00, 0x00, 0x00, 0x00], "5000000-as-u64"),
+    (&[0xfe, 0xff, 0xff, 0xff, 0x03], "64Mi-1"),
+];
+
+fn alloc_caps(t: &mut Tape, ctx: &mut Ctx) -> R {
+    let ty = t.choose(&[0usize, 0, 0, 1, 5, 6, 7, 8, 9, 26, 27, 3, 2, 15, 4, 20, 21, 24, 13, 28, 29, 23]);
+    let choices = t.bytes(24);
+    let Some((mut b, l)) = valid_encoding(t, ty) else { return Ok(()) };
+    let t = &mut Tape::new(&choices);
+    let (bomb, name) = ALLOC_BOMBS[t.below(ALLOC_BOMBS.len())];
+    // replace a recorded compact size (the element counts and byte lengths of the encoding) by the bomb; types
+    // without a recorded layout carry their count in front
+    let at_cs = !l.cs.is_empty() && t.chance(230);
+    let pos = if at_cs {
+        l.cs[t.below(l.cs.len())]
+    } else if matches!(ty, 26 | 27 | 15 | 28 | 29) && t.chance(200) {
+        0
+    } else {
+        t.below(b.len() + 1)
+    };
+    let pos = pos.min(b.len());
+    let width = match b.get(pos) {
+        Some(0xfd) => 3,
+        Some(0xfe) => 5,
+        Some(0xff) => 9,
+        Some(_) => 1,
+        None => 0,
+    };
+    let replace = at_cs || pos == 0;
+    let end = if replace { (pos + width).min(b.len()) } else { pos };
+    b.splice(pos..end, bomb.iter().copied());
+    if t.chance(60) {
+        // nothing behind the prefix
+        b.truncate(pos + bomb.len());
+    }
+    ctx.eval();
+    let ok = decode_tight(ty, &b, "length prefix replaced")?;
+    ctx.class(&format!("alloc-bomb:{}:{}", name, if at_cs { "at-recorded-compact-size" } else if pos == 0 { "in-front" } else { "spliced" }));
+    ctx.class(&format!("alloc-bomb:decoder:{}:{}", ty, if ok { "ok" } else { "err" }));
+    ctx.nontrivial(&(ty, &b));
+    Ok(())
+}
+
+// ---- (8) serde deserializers on token-level mutants of valid JSON / CBOR ---------------------------
+
+pub const KF_PARAMS_CBOR_PREALLOC: &str = "dynafed-params-hexbytes-visit-seq-preallocates-declared-length";
+pub const KF_BUILDER_SERDE_INVARIANT: &str = "taproot-builder-from-serde-breaks-finalize-invariant";
+pub const KF_COMMITMENT_SERDE_SHORT: &str = "commitment-deserialized-from-short-cbor-bytes-reads-out-of-bounds";
+
+/// bound on a single allocation while deserializing `len` bytes of JSON / CBOR (serde's own containers cap their
+/// pre-allocation at 1 MiB; everything else is proportional to the text)
+fn serde_alloc_limit(len: usize) -> usize {
+    (4 << 20) + 64 * len
+}
+
+fn serde_guard<T>(what: &str, len: usize, f: impl FnOnce() -> T) -> Result<T, Failure> {
+    let r = guard::guard(what, len, f)?;
+    let (max_req, _) = guard::last_alloc_stats();
+    if max_req > serde_alloc_limit(len) {
+        return Err(Failure::new(format!("{}: a single allocation request of {} bytes while deserializing {} bytes (bound {})", what, max_req, len, serde_alloc_limit(len))));
+    }
+    Ok(r)
+}
+
+/// feed one document to the deserializers of `T`; a value that comes out is serialized again. Returns whether any call succeeded.
+fn serde_feed<T: serde::de::DeserializeOwned + serde::Serialize>(name: &str, json: Option<&str>, cbor: Option<&[u8]>, post: &dyn Fn(&T)) -> Result<bool, Failure> {
+    let mut any = false;
+    if let Some(s) = json {
+        let what = format!("serde_json::from_str::<{}> on {}", name, prefix_of(s));
+        any |= serde_guard(&what, s.len(), || {
+            let a = serde_json::from_str::<T>(s).map(|v| {
+                let _ = serde_json::to_string(&v).map(|x| x.len());
+                post(&v);
+            });
+            let b = serde_json::from_reader::<_, T>(s.as_bytes()).map(|v| {
+                let _ = serde_cbor::to_vec(&v).map(|x| x.len());
+            });
+            a.is_ok() || b.is_ok()
+        })?;
+    }
+    if let Some(c) = cbor {
+        let what = format!("serde_cbor::from_slice::<{}> on {}", name, hex(&c[..c.len().min(160)]));
+        any |= serde_guard(&what, c.len(), || {
+            let a = serde_cbor::from_slice::<T>(c).map(|v| {
+                let _ = serde_cbor::to_vec(&v).map(|x| x.len());
+                post(&v);
+            });
+            let b = serde_cbor::from_reader::<T, _>(c).map(|v| {
+                let _ = serde_json::to_string(&v).map(|x| x.len());
+            });
+            a.is_ok() || b.is_ok()
+        })?;
+    }
+    Ok(any)
+}
+
+fn prefix_of(s: &str) -> String {
+    let mut k = s.len().min(200);
+    while !s.is_char_boundary(k) {
+        k -= 1;
+    }
+    s[..k].to_string()
+}
+
+const N_SERDE: usize = 30;
+const SERDE_NAMES: [&str; N_SERDE] = [
+    "Transaction", "TxIn", "TxOut", "Block", "BlockHeader", "BlockExtData", "dynafed::Params", "confidential::Asset", "confidential::Value",
+    "confidential::Nonce", "AssetBlindingFactor", "ValueBlindingFactor", "TxOutSecrets", "Txid", "AssetId", "Address", "Script", "pset::Input",
+    "pset::Output", "PartiallySignedTransaction", "pset::Global", "OutPoint", "AssetIssuance", "TxInWitness", "TxOutWitness", "LockTime",
+    "PsbtSighashType", "SchnorrSig", "ControlBlock", "TaprootBuilder",
+];
+/// types that contain a `dynafed::Params`
+const SERDE_HAS_PARAMS: [usize; 4] = [3, 4, 5, 6];
+
+/// JSON value tree and CBOR bytes of a generated value of type number `ty`
+fn serde_source(t: &mut Tape, ty: usize) -> Result<(serde_json::Value, Vec<u8>), Failure> {
+    fn both<T: serde::Serialize>(v: &T) -> Result<(serde_json::Value, Vec<u8>), Failure> {
+        g("serde serialize", 0, || (serde_json::to_value(v).unwrap_or(serde_json::Value::Null), serde_cbor::to_vec(v).unwrap_or_default()))
+    }
+    let o = TxOpts { big: false, max_in: 2, max_out: 2, ..TxOpts::default() };
+    match ty {
+        0 => both(&gen::gen_tx(t, &o)),
+        1 => both(&gen::gen_txin(t, &o)),
+        2 => both(&gen::gen_txout(t, &o)),
+        3 => both(&gen::gen_block(t)),
+        4 => both(&gen::gen_header(t)),
+        5 => both(&gen::gen_header(t).ext),
+        6 => {
+            let p = if t.chance(60) { gen::gen_params(t) } else { dynafed::Params::Full(gen::gen_full_params(t)) };
+            both(&p)
+        }
+        7 => both(&gen::gen_asset(t)),
+        8 => both(&gen::gen_value(t)),
+        9 => both(&gen::gen_nonce(t)),
+        10 => both(&ct::abf_from(t, 1)),
+        11 => both(&ct::vbf_from(t, 2)),
+        12 => both(&TxOutSecrets::new(gen::gen_asset_id(t), ct::abf_from(t, 3), t.edgy_u64(), ct::vbf_from(t, 4))),
+        13 => both(&gen::gen_txid(t)),
+        14 => both(&gen::gen_asset_id(t)),
+        15 => {
+            let r = super::c06::gen_ref_addr(t);
+            both(&super::c06::to_lib(&r)?)
+        }
+        16 => both(&gen::gen_script(t, false)),
+        17 => {
+            let d = t.choose(&[160u32, 230, 40, 100]);
+            both(&gp::gen_input(t, d))
+        }
+        18 => {
+            let d = t.choose(&[160u32, 230, 40, 100]);
+            both(&gp::gen_output(t, d, 2))
+        }
+        19 => both(&gp::gen_pset(t, &PsetOpts { max_in: 2, max_out: 2, extractable: false })),
+        20 => both(&gp::gen_pset(t, &PsetOpts { max_in: 0, max_out: 0, extractable: false }).global),
+        21 => both(&OutPoint { txid: gen::gen_txid(t), vout: t.edgy_u32() }),
+        22 => both(&gen::gen_issuance_nonnull(t)),
+        23 => both(&gen::gen_in_witness(t, false)),
+        24 => both(&gen::gen_out_witness(t)),
+        25 => both(&gen::gen_locktime(t)),
+        26 => both(&pset::PsbtSighashType::from_u32(t.edgy_u32())),
+        27 => both(&gp::gen_schnorr_sig(t)),
+        28 => match gp::gen_control_block(t) {
+            Some(cb) => both(&cb),
+            None => both(&0u8),
+        },
+        _ => match gp::gen_tap_tree(t, 6) {
+            Some((tt, _)) => both(&tt.into_inner()),
+            None => both(&TaprootBuilder::new()),
+        },
+    }
+}
+
+fn serde_feed_ty(ty: usize, json: Option<&str>, cbor: Option<&[u8]>, home: bool, ctx: &mut Ctx) -> Result<bool, Failure> {
+    let name = SERDE_NAMES[ty % N_SERDE];
+    macro_rules! plain {
+        ($t:ty) => {
+            serde_feed::<$t>(name, json, cbor, &|_| {})
+        };
+    }
+    match ty % N_SERDE {
+        0 => serde_feed::<Transaction>(name, json, cbor, &|tx| {
+            if home {
+                let _ = (tx.txid(), tx.wtxid(), tx.size(), tx.weight(), serialize(tx).len());
+                for i in &tx.input {
+                    let _ = i.pegin_data().is_some();
+                }
+                for o in &tx.output {
+                    let _ = (o.pegout_data().is_some(), o.minimum_value());
+                }
+            }
+        }),
+        1 => plain!(TxIn),
+        2 => plain!(TxOut),
+        3 => serde_feed::<Block>(name, json, cbor, &|b| {
+            if home {
+                let _ = (b.block_hash(), b.size(), b.weight(), b.header.calculate_dynafed_params_root());
+            }
+        }),
+        4 => serde_feed::<BlockHeader>(name, json, cbor, &|h| {
+            let _ = (h.block_hash(), h.calculate_dynafed_params_root(), serialize(h).len());
+        }),
+        5 => plain!(elements::BlockExtData),
+        6 => serde_feed::<dynafed::Params>(name, json, cbor, &|p| {
+            let _ = (p.calculate_root(), p.is_full(), serialize(p).len());
+        }),
+        7 => plain!(Asset),
+        8 => plain!(Value),
+        9 => plain!(Nonce),
+        10 => plain!(AssetBlindingFactor),
+        11 => plain!(ValueBlindingFactor),
+        12 => plain!(TxOutSecrets),
+        13 => plain!(Txid),
+        14 => plain!(AssetId),
+        15 => serde_feed::<Address>(name, json, cbor, &|a| {
+            let _ = (a.to_string().len(), a.script_pubkey().len());
+        }),
+        16 => serde_feed::<Script>(name, json, cbor, &|s| {
+            let _ = (s.asm().len(), s.instructions().count());
+        }),
+        17 => plain!(pset::Input),
+        18 => plain!(pset::Output),
+        19 => {
+            // (what to do with the value is decided by the caller's class; a PSET that comes out goes through the
+            // fallible entry points only: serde can produce states the PSET decoder refuses)
+            let r = serde_feed::<Pset>(name, json, cbor, &|p| {
+                let _ = (p.extract_tx().is_ok(), p.unique_id().is_ok(), p.locktime().is_ok(), p.sanity_check().is_ok());
+            });
+            let _ = &ctx;
+            r
+        }
+        20 => plain!(pset::Global),
+        21 => plain!(OutPoint),
+        22 => plain!(AssetIssuance),
+        23 => plain!(TxInWitness),
+        24 => plain!(TxOutWitness),
+        25 => plain!(LockTime),
+        26 => plain!(pset::PsbtSighashType),
+        27 => plain!(SchnorrSig),
+        28 => serde_feed::<ControlBlock>(name, json, cbor, &|c| {
+            let _ = (c.size(), c.serialize().len());
+        }),
+        _ => plain!(TaprootBuilder),
+    }
+}
+
+/// the exact signature of the candidate finding: the branch vector is `[null]` (one level, no node). Such a value
+/// cannot be made through the builder's API; `finalize` relies on "the last element is Some".
+fn builder_json_breaks_invariant(v: &serde_json::Value) -> bool {
+    match v.get("branch").and_then(|b| b.as_array()) {
+        Some(a) => a.len() == 1 && a[0].is_null(),
+        None => false,
+    }
+}
+
+fn serde_builder_states(t: &mut Tape, ctx: &mut Ctx) -> R {
+    // branch vectors only serde can make
+    let choices = t.bytes(80);
+    let (tree, _) = serde_source(t, 29)?;
+    let t = &mut Tape::new(&choices);
+    let node = tree.get("branch").and_then(|b| b.as_array()).and_then(|a| a.iter().find(|x| !x.is_null()).cloned()).unwrap_or(serde_json::Value::Null);
+    let null = serde_json::Value::Null;
+    let branch: Vec<serde_json::Value> = match t.below(8) {
+        0 => vec![null.clone()],
+        1 => vec![null.clone(), null.clone()],
+        2 => vec![node.clone(), null.clone()],
+        3 => vec![null.clone(), node.clone()],
+        4 => std::iter::repeat(node.clone()).take(130).collect(),
+        5 => vec![node.clone(), node.clone()],
+        6 => std::iter::repeat(null.clone()).take(129).chain(std::iter::once(node.clone())).collect(),
+        _ => vec![],
+    };
+    let doc = json!({ "branch": branch });
+    let text = doc.to_string();
+    let breaks = builder_json_breaks_invariant(&doc);
+    let leaf_script = gen::gen_script(t, false);
+    let depth = t.choose(&[0usize, 1, 2, 127, 128, 129]);
+    let h = elements::taproot::TapNodeHash::from_byte_array(t.arr32());
+    let key = pool().pubkeys[0].x_only_public_key().0;
+    let parsed = serde_guard("serde_json::from_str::<TaprootBuilder>", text.len(), || serde_json::from_str::<TaprootBuilder>(&text).ok())?;
+    let Some(b) = parsed else {
+        ctx.class("serde-builder:refused-by-deserializer");
+        return Ok(());
+    };
+    ctx.class(if breaks { "serde-builder:accepted:branch==[null]" } else { "serde-builder:accepted" });
+    let r = guard::guard("TaprootBuilder (from serde) ::{is_complete, add_leaf, add_hidden, finalize}", text.len(), || {
+        let _ = b.is_complete();
+        let _ = b.clone().add_leaf(depth, leaf_script.clone()).map(|x| x.is_complete());
+        let _ = b.clone().add_hidden(depth, h).map(|x| x.is_complete());
+        let _ = pset::TapTree::from_inner(b.clone()).is_ok();
+        b.clone().finalize(secp(), key).is_ok()
+    });
+    match r {
+        Ok(_) => Ok(()),
+        Err(f) => {
+            if breaks && f.panic_loc.is_some() && f.msg.contains("Builder invariant") {
+                // candidate finding: excluded by its exact signature (branch vector [null], the expect in finalize), counted
+                if ctx.is_known(KF_BUILDER_SERDE_INVARIANT) {
+                    ctx.class("known:builder-from-serde-invariant");
+                } else {
+                    ctx.exclude();
+                    ctx.class("excluded:builder-from-serde-branch==[null]:finalize-panics");
+                }
+                Ok(())
+            } else {
+                Err(Failure { msg: format!("{} (builder deserialized from {})", f.msg, prefix_of(&text)), panic_loc: f.panic_loc })
+            }
+        }
+    }
+}
+
+fn serde_inputs(t: &mut Tape, ctx: &mut Ctx) -> R {
+    ctx.eval();
+    if t.chance(12) {
+        return serde_builder_states(t, ctx);
+    }
+    let ty = match t.below(10) {
+        0 | 1 => 6,
+        2 => 4,
+        3 => 0,
+        4 => 19,
+        _ => t.below(N_SERDE),
+    };
+    let choices = t.bytes(64);
+    let (tree, cbor) = serde_source(t, ty)?;
+    let t = &mut Tape::new(&choices);
+    let other = t.below(N_SERDE);
+    if t.bool() {
+        let (text, op) = xg::mutate_json(t, &tree);
+        let ok = serde_feed_ty(ty, Some(&text), None, true, ctx)?;
+        let _ = serde_feed_ty(other, Some(&text), None, false, ctx)?;
+        let _ = g("ContractHash::from_json_contract", text.len(), || ContractHash::from_json_contract(&text).is_ok())?;
+        ctx.class(&format!("serde-json:{}:{}", op, if ok { "ok" } else { "err" }));
+        ctx.class(&format!("serde-type:{}", SERDE_NAMES[ty]));
+        ctx.nontrivial(&(ty, &text));
+        if ctx.wants_sample("serde-json") && text.len() < 200 && op != "unchanged" {
+            ctx.sample("serde-json", || json!({"type": SERDE_NAMES[ty], "op": op, "text": text, "deserialized": ok}));
+        }
+    } else {
+        let mut b = cbor;
+        let mut op = xg::mutate_cbor(t, &mut b);
+        if t.chance(60) {
+            op = xg::mutate_cbor(t, &mut b);
+        }
+        // the candidate finding of this sub-check (reported, not fixed): excluded by its exact signature, counted
+        let bomb = xg::cbor_has_params_hexbytes_array_bomb(&b);
+        if bomb && (SERDE_HAS_PARAMS.contains(&ty) || SERDE_HAS_PARAMS.contains(&other)) {
+            if ctx.is_known(KF_PARAMS_CBOR_PREALLOC) {
+                ctx.class("known:params-cbor-hexbytes-array-prealloc");
+            } else {
+                ctx.exclude();
+                ctx.class("excluded:params-cbor-hexbytes-array-prealloc");
+            }
+            return Ok(());
+        }
+        // second candidate finding (reported, not fixed): a byte string shorter than 33 bytes where a commitment is read
+        if xg::cbor_has_short_commitment_bytes(&b) {
+            if ctx.is_known(KF_COMMITMENT_SERDE_SHORT) {
+                ctx.class("known:commitment-from-short-cbor-bytes");
+            } else {
+                ctx.exclude();
+                ctx.class("excluded:commitment-from-short-cbor-bytes");
+            }
+            return Ok(());
+        }
+        let ok = serde_feed_ty(ty, None, Some(&b), true, ctx)?;
+        let _ = serde_feed_ty(other, None, Some(&b), false, ctx)?;
+        ctx.class(&format!("serde-cbor:{}:{}", op, if ok { "ok" } else { "err" }));
+        ctx.class(&format!("serde-type:{}", SERDE_NAMES[ty]));
+        ctx.nontrivial(&(ty, &b));
+        if ctx.wants_sample("serde-cbor") && b.len() < 120 {
+            ctx.sample("serde-cbor", || json!({"type": SERDE_NAMES[ty], "op": op, "cbor_hex": hex(&b), "deserialized": ok}));
+        }
+    }
+    Ok(())
+}
+
+// ---- (9) blinding bodies from consistent cases, merges of real siblings -----------------------------
+
+fn err_variant<E: std::fmt::Debug>(e: &E) -> String {
+    let s = format!("{:?}", e);
+    s.split(|c: char| c == '(' || c == '{' || c == ' ').next().unwrap_or("").to_string()
+}
+
+fn blind_perturbed(t: &mut Tape, ctx: &mut Ctx) -> R {
+    let choices = t.bytes(96);
+    let mut c = xg::gen_blind_case(t);
+    let t = &mut Tape::new(&choices);
+    // a quarter of the cases stay consistent: they run both bodies to their end
+    let k = if t.below(4) == 0 { 0 } else { t.below(xg::BLIND_PERTURBATIONS.len()) };
+    let name = xg::BLIND_PERTURBATIONS[k];
+    xg::perturb_blind_case(t, &mut c, k);
+    let seq = t.below(4);
+    ctx.eval();
+    let mut q = c.pset.clone();
+    let mut rng = ChaCha20Rng::from_seed(c.seed);
+    // two roles: with the sequences that start with blind_non_last the first blinder holds the secrets of its own
+    // inputs only and the last blinder those of the others; blind_last alone is given everything
+    let two_party = matches!(seq, 0 | 3);
+    let (sec_first, sec_last) = if two_party { (c.secrets_of(false), c.secrets_of(true)) } else { (c.secrets.clone(), c.secrets.clone()) };
+    let mut outcomes: Vec<String> = Vec::new();
+    let mut all_ok = true;
+    let steps: &[bool] = match seq {
+        0 => &[false, true],       // non-last, then last
+        1 => &[true],              // last alone
+        2 => &[true, true],        // last twice in a row
+        _ => &[false, false, true], // non-last twice, then last
+    };
+    for (n, last) in steps.iter().enumerate() {
+        let what = format!("{} (step {} of {:?}, perturbation {}, {} marked outputs)", if *last { "blind_last" } else { "blind_non_last" }, n, steps, name, c.marked.len());
+        let secrets = if *last { &sec_last } else { &sec_first };
+        let r = g(&what, 0, || if *last { q.blind_last(&mut rng, secp(), secrets).map(|m| m.len()) } else { q.blind_non_last(&mut rng, secp(), secrets).map(|m| m.len()) })?;
+        match r {
+            Ok(_) => outcomes.push("ok".into()),
+            Err(e) => {
+                all_ok = false;
+                outcomes.push(err_variant(&e));
+            }
+        }
+        g("surjection_inputs", 0, || q.surjection_inputs(secrets).is_ok())?;
+    }
+    pset_sweep(&q, all_ok, ctx)?;
+    ctx.class(&format!("blind-case:{}:{}", name, if all_ok { "all-steps-ok" } else { "some-step-err" }));
+    ctx.class(&format!("blind-case:marked-outputs:{}", c.marked.len()));
+    ctx.class(&format!("blind-case:steps:{}", match seq { 0 => "non_last,last", 1 => "last", 2 => "last,last", _ => "non_last,non_last,last" }));
+    if k == 0 && seq <= 1 && !c.marked.is_empty() {
+        // the unperturbed case is consistent: reaching the end of both bodies is what this sub-check is for
+        ctx.class(if all_ok { "blind-case:consistent:completed" } else { "blind-case:consistent:refused" });
+    }
+    if k == 0 && seq <= 1 && !c.marked.is_empty() && !all_ok && ctx.wants_sample("blind-case:consistent:refused") {
+        let outs: Vec<String> = c.pset.outputs().iter().map(|o| format!("{:?}/{:?}/key={}/idx={:?}", o.amount, o.asset, o.blinding_key.is_some(), o.blinder_index)).collect();
+        let ins: Vec<String> = c.pset.inputs().iter().map(|i| format!("conf={} iss={:?}", i.witness_utxo.as_ref().map_or(false, |u| u.value.is_confidential()), i.issuance_value_amount)).collect();
+        ctx.sample("blind-case:consistent:refused", || json!({"steps": format!("{:?}", steps), "outcomes": outcomes, "marked": c.marked, "ins": ins, "outs": outs}));
+    }
+    if ctx.wants_sample("blind-case") && !all_ok {
+        ctx.sample("blind-case", || json!({"perturbation": name, "steps": format!("{:?}", steps), "outcomes": outcomes, "marked": c.marked, "inputs": c.pset.inputs().len(), "outputs": c.pset.outputs().len()}));
+    }
+    Ok(())
+}
+
+fn merge_siblings(t: &mut Tape, ctx: &mut Ctx) -> R {
+    let p = gp::gen_pset(t, &PsetOpts::default());
+    let sib = xg::gen_merge_sibling(t, &p);
+    ctx.eval();
+    let (id_a, id_b) = g("unique_id", 0, || (p.unique_id().ok(), sib.unique_id().ok()))?;
+    ctx.class(match (&id_a, &id_b) {
+        (Some(a), Some(b)) if a == b => "merge-sibling:same-id",
+        (None, None) => "merge-sibling:both-ids-err",
+        _ => "merge-sibling:ids-differ",
+    });
+    let mut a = p.clone();
+    let r1 = g("merge(sibling)", 0, || a.merge(sib.clone()))?;
+    let mut b = sib.clone();
+    let r2 = g("merge(sibling, other order)", 0, || b.merge(p.clone()))?;
+    // merging the result again, and the two results with each other
+    let r3 = g("merge(result, sibling again)", 0, || a.merge(sib.clone()))?;
+    let r4 = g("merge(result, other result)", 0, || a.merge(b.clone()))?;
+    for r in [&r1, &r2, &r3, &r4] {
+        if let Err(e) = r {
+            ctx.class(&format!("merge-sibling:err:{}", err_variant(e)));
+        }
+    }
+    if r1.is_ok() {
+        ctx.class("merge-sibling:merged");
+    }
+    pset_sweep(&a, r1.is_ok() && r3.is_ok() && r4.is_ok(), ctx)?;
+    pset_sweep(&b, r2.is_ok(), ctx)?;
+    // operands of different length (zip) under one id cannot exist; different ids with different lengths:
+    let mut c = p.clone();
+    if t.bool() {
+        let _ = g("remove_input", 0, || c.remove_input(0).is_some())?;
+    } else {
+        let o = gp::gen_output(t, 100, c.inputs().len());
+        g("add_output", 0, || c.add_output(o))?;
+    }
+    let mut a2 = p.clone();
+    g("merge(other length)", 0, || a2.merge(c).is_ok())?;
+    Ok(())
+}
+
+fn pset_ops(t: &mut Tape, ctx: &mut Ctx) -> R {
+    if t.below(4) < 3 {
+        blind_perturbed(t, ctx)?;
+    } else {
+        merge_siblings(t, ctx)?;
+    }
+    ctx.nontrivial(&t.consumed());
+    Ok(())
+}
+
+fn repro_params_cbor_prealloc() -> bool {
+    // {"fedpegscript": <array head declaring 2^63 elements>}: Vec::with_capacity(2^63) panics with "capacity
+    // overflow" before anything is allocated; a deserializer that does not trust the declared length answers Err
+    let doc = unhex("a16c6665647065677363726970749b8000000000000000").unwrap_or_default();
+    std::panic::catch_unwind(|| {
+        let _ = serde_cbor::from_slice::<dynafed::Params>(&doc);
+    })
+    .is_err()
+}
+fn repro_commitment_serde_short() -> bool {
+    // [2, h'09'] from a slice: the parser reads 32 bytes behind the one-byte string (no fault, the bytes belong to
+    // the buffer below) and answers from what it finds there; a deserializer that checks the length answers Err
+    // whatever follows. Two buffers that differ only behind the document tell the two apart.
+    let mut a = vec![0x82u8, 0x02, 0x41, 0x09];
+    let mut b = a.clone();
+    let p = pool().commitments[0].serialize();
+    a.extend_from_slice(&p[1..]);
+    b.extend_from_slice(&[0u8; 32]);
+    let ra = serde_cbor::from_slice::<Value>(&a[..4]).is_ok();
+    let rb = serde_cbor::from_slice::<Value>(&b[..4]).is_ok();
+    let _ = p;
+    ra || rb
+}
+fn repro_builder_serde() -> bool {
+    std::panic::catch_unwind(|| {
+        if let Ok(b) = serde_json::from_str::<TaprootBuilder>("{\"branch\":[null]}") {
+            let _ = b.finalize(secp(), pool().pubkeys[0].x_only_public_key().0);
+        }
+    })
+    .is_err()
+}
+
 fn repro_blind_no_marked() -> bool {
     std::panic::catch_unwind(|| {
         let a = pool().assets[0];
@@ -1117,13 +1889,49 @@ pub fn property() -> Property {
                unblind with wrong keys, blind_issuances, PSET structural edits + blind_last / blind_non_last / \
                surjection_inputs with arbitrary secret maps and blinder indices, merge with arbitrary PSETs and key \
                sources, TaprootBuilder histories with arbitrary depths / hidden nodes, Huffman with 0..300 weights, taproot \
-               sighash with out-of-range indices / mismatched prevouts / arbitrary annex. Oracle: no panic outside the \
+               sighash with out-of-range indices / mismatched prevouts / arbitrary annex (after an edit that leaves a PSET in a \
+               state the decoder refuses, or a blinding call that stopped half way, only the fallible entry points are swept, \
+               not the infallible accessors). pset_framed: library encodings of generated PSETs split into raw key-value pairs \
+               by the harness and re-framed after (a) rewriting the declared input / output count to actual+1, actual+2, 0, 9999, \
+               10000, 10001, 65536, 2^31-1, 2^32-1, 2^32, 2^63, u64::MAX with all, some or none of the maps following, (b) one or \
+               two pair-level edits (value resized, pair duplicated / deleted / moved to another map, type byte changed, key \
+               data appended / truncated, separator deleted, empty map inserted, xpub record with a value of 0..8 bytes, pset \
+               proprietary record of an assigned subtype with a key / value of the wrong shape), through deserialize::<Pset> \
+               and the single-map decoders. structured_scripts: OP_RETURN scripts with two and more pushes in all four push \
+               encodings around the pegout rules (first push 32 / 31 / 33 / 0 bytes, second 0..256 bytes, numeric / reserved / \
+               non-push opcodes and a truncated push in the remainder) through is_null_data / pegout_data / is_pegout and the \
+               transaction decoder; pegin witnesses of 6 (5, 7) items with every field at its length and one off, a real or \
+               truncated bitcoin transaction, a merkle-block shaped or 79 / 80 / 81 / 160-byte proof through \
+               PeginData::from_pegin_witness, parse_tx, parse_merkle_proof, TxIn::pegin_data; scripts of whole instructions whose \
+               last direct push / PUSHDATA1/2/4 payload is 0, 1 or 2 bytes short or whose header is cut, declared lengths up \
+               to 2^32-1, through instructions / instructions_minimal / asm. alloc_caps: a compact size recorded by the \
+               reference encoder (element counts and byte lengths of 22 decodable types) replaced by 65535, 100000, 10^6, \
+               4000000, 4000001, 5*10^6, 8*10^6, 16Mi, 32Mi, 64Mi-1; oracle: the largest single allocation request stays \
+               below what the documented caps allow (4,000,000 bytes per vector, 10,000 PSET maps) + 1 MiB + 64 x input, \
+               instead of the generic 64 MiB. serde_inputs: JSON and CBOR of generated values of 30 serde types, mutated at the \
+               token level (field dropped / duplicated / renamed, node replaced, sequence tag changed, string / number edited, \
+               hex string or byte string written in array notation, definite lengths rewritten to 2^24..2^64-1 or indefinite, \
+               major type changed, item replaced / deleted, map entry duplicated, truncation, 100..10000 levels of nesting) \
+               into serde_json::from_str / from_reader and serde_cbor::from_slice / from_reader of the value's own type and of a \
+               second type, ContractHash::from_json_contract; single allocation <= 4 MiB + 64 x input; TaprootBuilder values \
+               only serde can make ([null], [null,null], [node,null], 130 entries ...) through is_complete / add_leaf / \
+               add_hidden / finalize. Three candidate findings are excluded by their exact signature and counted \
+               (excluded_by_construction): a CBOR array head declaring more elements than bytes follow in the position of \
+               Params.fedpegscript / an extension_space entry; a CBOR byte string shorter than 33 bytes where a commitment is \
+               read; finalize on a builder deserialized from {branch:[null]}. pset_ops: consistent two-role blinding cases \
+               (1..3 inputs with true secrets split between a first and a last blinder, 0..3 marked outputs, optional \
+               issuance) with one of 18 perturbations, through blind_non_last / blind_last in four call sequences (a quarter \
+               unperturbed: both bodies run to their end); merge of a PSET with a sibling of the same unique id in which \
+               every other field is drawn anew (both orders, result merged again, results merged with each other, operands of \
+               different length). Oracle: no panic outside the \
                documented conditions, no abort, no single allocation > 64 MiB nor live growth > 128 MiB + 64 x input. \
                Non-trivial: input of >= 8 bytes (decoders), text with a separator or > 8 chars, slice >= 4 bytes, every \
-               operation case; distinct by input.",
+               operation case, every case of the structured sub-checks; distinct by input.",
         assumptions: &[
             "documented panics are not generated: legacy/segwit sighash and signing-data with index >= inputs, insert_input / insert_output beyond the length, p2wpkh with uncompressed keys, new_witness_program with version > 16, push_slice >= 4 GiB, remove_checksum on unvalidated data, read_uint with size > 8",
             "overflow-checks and debug-assertions are enabled in the harness build, so arithmetic overflow in the library is a panic",
+            "serde Deserialize impls (serde_json, serde_cbor 0.8) count as public functions that report failure through Result; values only serde can construct count as in-memory values for the fallible builder operations",
+            "the infallible accessor sweep (to_txout, encoder, Display, Debug) is applied only to PSETs a decoder can produce; other in-memory states get the fallible entry points only",
         ],
         subs: vec![
             Sub { name: "corpus", kind: Kind::Index { count: |_| 45, exhaustive: false, f: corpus } },
@@ -1133,10 +1941,30 @@ pub fn property() -> Property {
             Sub { name: "operations", kind: Kind::Tape { max_len: 5000, quick: 6_000, thorough: 200_000, f: operations } },
             Sub { name: "raw_bytes", kind: Kind::Tape { max_len: 300, quick: 120_000, thorough: 1_500_000, f: raw_bytes } },
             Sub { name: "raw_text", kind: Kind::Tape { max_len: 120, quick: 120_000, thorough: 1_500_000, f: raw_text } },
+            Sub { name: "pset_framed", kind: Kind::Tape { max_len: 3000, quick: 50_000, thorough: 1_500_000, f: pset_framed } },
+            Sub { name: "structured_scripts", kind: Kind::Tape { max_len: 1200, quick: 120_000, thorough: 3_000_000, f: structured_scripts } },
+            Sub { name: "alloc_caps", kind: Kind::Tape { max_len: 3000, quick: 60_000, thorough: 1_800_000, f: alloc_caps } },
+            Sub { name: "serde_inputs", kind: Kind::Tape { max_len: 4000, quick: 80_000, thorough: 2_400_000, f: serde_inputs } },
+            Sub { name: "pset_ops", kind: Kind::Tape { max_len: 8000, quick: 4_000, thorough: 120_000, f: pset_ops } },
         ],
         known: vec![
             Known { key: KF_BLIND_NO_MARKED, what: "Transaction::blind panics (expect) when no output is marked for blinding", repro: repro_blind_no_marked },
             Known { key: KF_NEW_BECH32_EMPTY, what: "SegwitHrpstring::new_bech32 panics on a string with an empty data part", repro: repro_new_bech32 },
+            Known {
+                key: KF_PARAMS_CBOR_PREALLOC,
+                what: "dynafed::Params deserialized from CBOR pre-allocates the declared length of an array given for fedpegscript / an extension_space entry (HexBytes::visit_seq: Vec::with_capacity(size_hint)): a 23-byte document requests 2^40 bytes or panics with capacity overflow",
+                repro: repro_params_cbor_prealloc,
+            },
+            Known {
+                key: KF_COMMITMENT_SERDE_SHORT,
+                what: "confidential::Value / Asset (and every type holding a commitment) deserialized from CBOR hand a byte string of any length to secp256k1_zkp::{PedersenCommitment, Generator}::from_slice, which reads 33 bytes: out-of-bounds read, SIGSEGV for serde_cbor::from_reader of 82 02 40",
+                repro: repro_commitment_serde_short,
+            },
+            Known {
+                key: KF_BUILDER_SERDE_INVARIANT,
+                what: "a TaprootBuilder deserialized from {\"branch\":[null]} makes finalize panic (expect on the builder invariant)",
+                repro: repro_builder_serde,
+            },
         ],
     }
 }
